@@ -105,8 +105,79 @@ func codeStringTable(c *core.Ctx, fd *ast.FuncDecl, info *types.Info) (map[int64
 }
 
 // unmarshalTable extracts text->value from Code.UnmarshalText.
-func codeUnmarshalTable(c *core.Ctx, fd *ast.FuncDecl, info *types.Info) (map[string]int64, *ast.SwitchStmt) {
+func codeUnmarshalTable(c *core.Ctx, fd *ast.FuncDecl, info *types.Info, st map[int64]string) (map[string]int64, *ast.SwitchStmt) {
 	sws := astx.FindSwitches(fd.Body)
+	if len(sws) == 0 && st != nil {
+		// the inverse of String by construction: `for v := lo; v <= hi; v++ { if v.String() == text { *c = v; return nil } }`
+		recv := recvObj(info, fd)
+		for _, l := range loopsIn(fd.Body) {
+			fs, ok := l.(*ast.ForStmt)
+			if !ok || fs.Init == nil || fs.Cond == nil || fs.Post == nil {
+				continue
+			}
+			init, ok1 := fs.Init.(*ast.AssignStmt)
+			cond, ok2 := fs.Cond.(*ast.BinaryExpr)
+			post, ok3 := fs.Post.(*ast.IncDecStmt)
+			if !ok1 || !ok2 || !ok3 || len(init.Lhs) != 1 || len(init.Rhs) != 1 || post.Tok != token.INC {
+				continue
+			}
+			iv := astx.ObjOf(info, init.Lhs[0])
+			lo, okLo := astx.ConstInt(info, init.Rhs[0])
+			hi, okHi := astx.ConstInt(info, cond.Y)
+			if iv == nil || !okLo || !okHi || astx.ObjOf(info, cond.X) != iv || astx.ObjOf(info, post.X) != iv {
+				continue
+			}
+			if cond.Op == token.LSS {
+				hi--
+			} else if cond.Op != token.LEQ {
+				continue
+			}
+			good := false
+			for _, stmt := range fs.Body.List {
+				ifs, ok := stmt.(*ast.IfStmt)
+				if !ok || ifs.Else != nil || len(ifs.Body.List) != 2 {
+					continue
+				}
+				lx, op, rx, isCmp := astx.CompareOp(ifs.Cond)
+				if !isCmp || op != token.EQL {
+					continue
+				}
+				isStr := func(e ast.Expr) bool {
+					call, ok := astx.Unparen(e).(*ast.CallExpr)
+					if !ok || len(call.Args) != 0 || !isMethodNamed(info, call, "String") {
+						return false
+					}
+					sel, ok := call.Fun.(*ast.SelectorExpr)
+					return ok && astx.ObjOf(info, sel.X) == iv
+				}
+				if !isStr(lx) && !isStr(rx) {
+					continue
+				}
+				as, isAs := ifs.Body.List[0].(*ast.AssignStmt)
+				ret, isRet := ifs.Body.List[1].(*ast.ReturnStmt)
+				if !isAs || !isRet || len(as.Lhs) != 1 || len(as.Rhs) != 1 || len(ret.Results) != 1 || !astx.IsNil(info, ret.Results[0]) {
+					continue
+				}
+				star, isStar := as.Lhs[0].(*ast.StarExpr)
+				if isStar && astx.ObjOf(info, star.X) == recv && astx.ObjOf(info, as.Rhs[0]) == iv {
+					good = true
+				}
+			}
+			if !good {
+				continue
+			}
+			table := map[string]int64{}
+			for v := lo; v <= hi; v++ {
+				if text, ok := st[v]; ok {
+					if _, dup := table[text]; !dup {
+						table[text] = v // the loop returns at the first match
+					}
+				}
+			}
+			c.Ok("UnmarshalText/inverse-by-construction", fs.Pos(), "UnmarshalText looks the text up among String() of %d..%d", lo, hi)
+			return table, nil
+		}
+	}
 	if len(sws) != 1 || sws[0].Tag == nil {
 		c.Undecided("UnmarshalText/switch", fd.Pos(), "expected exactly one tagged switch in Code.UnmarshalText, found %d", len(sws))
 		return nil, nil
@@ -279,7 +350,7 @@ func codeTextBijection(c *core.Ctx) {
 		return
 	}
 	st, _ := codeStringTable(c, sfd, info)
-	ut, _ := codeUnmarshalTable(c, ufd, info)
+	ut, _ := codeUnmarshalTable(c, ufd, info, st)
 	if st == nil || ut == nil {
 		return
 	}
